@@ -33,10 +33,11 @@ ASSUMPTIONS = [
     "the Block tag is compared at tick ends only; None and '' both mean empty",
     "observation through data descriptors / method wrappers installed from the harness",
 ]
-REQUIRED = {"tick_end_checks": 20000, "ticks_with_active_block": 5000, "ticks_with_nested_active_blocks": 500,
-            "lock_acquisitions": 1500, "nested_lock_acquisitions": 300, "end_block_checks": 800,
-            "end_block_by_interrupt": 100, "end_blocks_checks": 150, "sibling_after_block_checks": 800,
-            "block_end_with_registered_interrupt": 100, "run_boundaries": 100}
+REQUIRED = {"tick_end_checks": 40000, "ticks_with_active_block": 12000, "ticks_with_nested_active_blocks": 5000,
+            "lock_acquisitions": 2000, "nested_lock_acquisitions": 1000, "end_block_checks": 1000,
+            "end_block_by_interrupt": 600, "end_blocks_checks": 400, "sibling_after_block_checks": 1500,
+            "block_end_with_registered_interrupt": 400, "run_boundaries": 100,
+            "run_boundaries_with_active_block": 20}
 
 
 class Gen5(Gen):
@@ -206,7 +207,7 @@ def check_case(case, res: Result):
             if s is None:
                 s = st[pid] = {"lock_acquired": False, "block_ended": False, "completed": False, "started": False,
                                "interrupt_registered": False, "stale": False, "reset_while_active": None,
-                               "rereg_after_abort": None, "last_unreg_ctx": "never"}
+                               "rereg_after_abort": None, "foreign_unreg_tick": None}
             return s
         active_set: dict[int, object] = {}     # pyid -> block node, in event order
         pending_ended = []                      # block_ended events of the End block(s) visit in progress
@@ -304,7 +305,7 @@ def check_case(case, res: Result):
                     by_interrupt += 1
                 lagging = [b for b in nodes.values() if isinstance(b, p.BlockNode) and b not in newly
                            and S(id(b))["lock_acquired"] and S(id(b))["block_ended"]]
-                if isinstance(n, p.EndBlockNode) and len(lagging) + len(newly) >= 2 or (lagging and not newly):
+                if isinstance(n, p.EndBlockNode) and lagging:
                     # visit_EndBlockNode takes the new tag value from the *locked* blocks: a block that has ended
                     # but not yet released its lock can be named by the tag from here on
                     for b in lagging:
@@ -337,10 +338,13 @@ def check_case(case, res: Result):
                                      f"tick {tick}: `End blocks` {nid} left {[_nm(b) for b in active_set.values()]} "
                                      f"active"))
             elif field == "unreg_call":
-                s["last_unreg_ctx"] = ctx
+                if ctx != pid:
+                    s["foreign_unreg_tick"] = tick          # unregistered by somebody else (abort at block end)
             elif field == "reg_call":
-                if ctx == pid and s["last_unreg_ctx"] not in ("never", pid):
-                    # a handler registers its own node again after somebody else unregistered it
+                if ctx == pid and s["foreign_unreg_tick"] == tick:
+                    # the handler of an interrupt that was aborted earlier in this very tick is advanced once more
+                    # (the interpreter iterates over a copy of its interrupt list) and registers its node again:
+                    # a Watch through the "not registered yet" branch, an Alarm through its re-arm
                     if s["rereg_after_abort"] is None:
                         s["rereg_after_abort"] = tick
             elif field == "interrupt_registered" and new is False:
@@ -357,7 +361,7 @@ def check_case(case, res: Result):
                         if isinstance(sib, p.BlockNode):
                             res.count("sibling_after_block_checks")
                             ss = S(id(sib))
-                            if not ss["block_ended"] and not ss["completed"]:
+                            if not ss["block_ended"]:
                                 viol.append((classify("C05.sibling_started_before_block_ended", n),
                                              f"tick {tick}: {nid} {cls} started while the preceding block "
                                              f"{_nm(sib)} has not ended (lock={ss['lock_acquired']}, "
@@ -415,6 +419,8 @@ def check_case(case, res: Result):
                 if inner is not None:
                     named = [b for b in sn["blocks"] if b.name == tag]
                     mech = "C05.block_tag_wrong"
+                    if any(S(id(b)).get("end_block_while_lagging", 10 ** 9) <= k for b in named):
+                        mech = "C05.end_block_retags_ended_block"
                     for b in named + [inner]:
                         mech = classify(mech, b)
                     viol.append((mech, f"tick {k}: Block tag = {tag!r}, innermost active block is {inner.name!r} "
